@@ -748,11 +748,11 @@ func (multi *MultiEpoch) processSlotTransactions(
 			return true
 		}
 
-		if !(*filter.Vote) && IsSimpleVoteTransaction(&tx) { // If vote is false, we should filter out vote transactions
+		if filter.Vote != nil && !filter.GetVote() && IsSimpleVoteTransaction(&tx) { // If vote is false, we should filter out vote transactions (an absent flag does not restrict)
 			return false
 		}
 
-		if !(*filter.Failed) { // If failed is false, we should filter out failed transactions
+		if filter.Failed != nil && !filter.GetFailed() { // If failed is false, we should filter out failed transactions (an absent flag does not restrict)
 			err := getErr(meta)
 			if err != nil {
 				return false
